@@ -60,12 +60,17 @@ func (k kind) size() bool { return k == kSize || k == kCSize }
 
 type fnSpec struct {
 	args     []kind // documented positions
+	opt      int    // how many of the trailing documented positions are optional
 	variadic kind   // kind of further positions
 	hasVar   bool
+	minVar   int // least number of variadic arguments
 }
 
 func fixed(k ...kind) fnSpec { return fnSpec{args: k} }
-func varargs(k kind) fnSpec  { return fnSpec{variadic: k, hasVar: true} }
+func optional(opt int, k ...kind) fnSpec {
+	return fnSpec{args: k, opt: opt}
+}
+func varargs(min int, k kind) fnSpec { return fnSpec{variadic: k, hasVar: true, minVar: min} }
 func (f fnSpec) at(i int) kind {
 	if i < len(f.args) {
 		return f.args[i]
@@ -80,35 +85,35 @@ func (f fnSpec) at(i int) kind {
 // list of functions the generators use is NOT this table but the registered
 // table itself (allFunctions): a helper added later is generated with kAny.
 var fnTable = map[string]fnSpec{
-	"coalesce": varargs(kAny), "bucket": fixed(kInt, kCInt), "bucketrange": fixed(kInt, kCInt),
+	"coalesce": varargs(1, kAny), "bucket": fixed(kInt, kCInt), "bucketrange": fixed(kInt, kCInt),
 	"clamp": fixed(kInt, kCInt, kCInt), "expbucket": fixed(kInt),
 	"isint": fixed(kAny), "isnum": fixed(kAny),
-	"sumi": varargs(kInt), "subi": varargs(kInt), "multi": varargs(kInt), "divi": varargs(kInt), "modi": varargs(kInt),
-	"maxi": varargs(kInt), "mini": varargs(kInt),
-	"sumf": varargs(kFloat), "subf": varargs(kFloat), "multf": varargs(kFloat), "divf": varargs(kFloat), "pow": varargs(kFloat),
+	"sumi": varargs(2, kInt), "subi": varargs(2, kInt), "multi": varargs(2, kInt), "divi": varargs(2, kInt), "modi": varargs(2, kInt),
+	"maxi": varargs(2, kInt), "mini": varargs(2, kInt),
+	"sumf": varargs(2, kFloat), "subf": varargs(2, kFloat), "multf": varargs(2, kFloat), "divf": varargs(2, kFloat), "pow": varargs(2, kFloat),
 	"ceil": fixed(kFloat), "floor": fixed(kFloat), "log10": fixed(kFloat), "log2": fixed(kFloat), "ln": fixed(kFloat), "sqrt": fixed(kFloat),
-	"round": fixed(kFloat, kCSize),
-	"!":     varargs(kFormula),
-	"if":    fixed(kCond, kAny, kAny), "switch": varargs(kAny), "unless": fixed(kCond, kAny),
-	"eq": varargs(kAny), "neq": varargs(kAny), "not": fixed(kCond),
+	"round": optional(1, kFloat, kCSize),
+	"!":     varargs(1, kFormula),
+	"if":    optional(1, kCond, kAny, kAny), "switch": varargs(2, kAny), "unless": fixed(kCond, kAny),
+	"eq": varargs(2, kAny), "neq": varargs(2, kAny), "not": fixed(kCond),
 	"lt": fixed(kFloat, kFloat), "gt": fixed(kFloat, kFloat), "lte": fixed(kFloat, kFloat), "gte": fixed(kFloat, kFloat),
-	"and": varargs(kCond), "or": varargs(kCond),
+	"and": varargs(1, kCond), "or": varargs(1, kCond),
 	"len": fixed(kAny), "like": fixed(kAny, kAny), "prefix": fixed(kAny, kAny), "suffix": fixed(kAny, kAny),
 	"format": {args: []kind{kFmt}, variadic: kAny, hasVar: true},
 	"substr": fixed(kAny, kInt, kInt), "select": fixed(kWords, kInt), "upper": fixed(kAny), "lower": fixed(kAny),
-	"tab": varargs(kAny), "$": varargs(kAny), "@": varargs(kAny),
-	"@len": fixed(kArr), "@map": fixed(kArr, kBody), "@split": fixed(kWords, kCDelim), "@select": fixed(kArr, kCInt),
-	"@join": fixed(kArr, kCDelim), "@reduce": fixed(kArr, kBody2, kCStr), "@filter": fixed(kArr, kBody),
-	"@slice": fixed(kArr, kCInt, kCInt), "@in": fixed(kAny, kCArr),
+	"tab": varargs(1, kAny), "$": varargs(1, kAny), "@": varargs(1, kAny),
+	"@len": fixed(kArr), "@map": fixed(kArr, kBody), "@split": optional(1, kWords, kCDelim), "@select": fixed(kArr, kCInt),
+	"@join": optional(1, kArr, kCDelim), "@reduce": optional(1, kArr, kBody2, kCStr), "@filter": fixed(kArr, kBody),
+	"@slice": optional(1, kArr, kCInt, kCInt), "@in": fixed(kAny, kCArr),
 	"@range": fixed(kSize, kSize, kSize), "@for": fixed(kAny, kCond, kAny),
 	"basename": fixed(kPath), "dirname": fixed(kPath), "extname": fixed(kPath),
-	"load": fixed(kFile), "lookup": fixed(kAny, kTable, kCStr), "haskey": fixed(kAny, kTable, kCStr),
-	"hi": fixed(kInt), "hf": fixed(kFloat), "bytesize": fixed(kUint, kCSize), "bytesizesi": fixed(kUint, kCSize),
-	"downscale": fixed(kInt, kCSize), "percent": fixed(kFloat, kCSize, kCFloat, kCFloat),
-	"json": fixed(kJSON, kJPath), "csv": varargs(kAny),
-	"time": fixed(kTime, kCTFmt, kCTz), "timeformat": fixed(kInt, kCTFmt, kCTz), "timeattr": fixed(kInt, kCAttr, kCTz),
-	"buckettime": fixed(kTime, kCBucket, kCTFmt, kCTz), "duration": fixed(kDur), "durationformat": fixed(kInt),
-	"color": fixed(kCColor, kAny), "repeat": fixed(kCStr, kSize), "bar": fixed(kInt, kCInt, kCSize, kCScaler),
+	"load": fixed(kFile), "lookup": optional(1, kAny, kTable, kCStr), "haskey": optional(1, kAny, kTable, kCStr),
+	"hi": fixed(kInt), "hf": fixed(kFloat), "bytesize": optional(1, kUint, kCSize), "bytesizesi": optional(1, kUint, kCSize),
+	"downscale": optional(1, kInt, kCSize), "percent": optional(3, kFloat, kCSize, kCFloat, kCFloat),
+	"json": optional(1, kJSON, kJPath), "csv": varargs(1, kAny),
+	"time": optional(2, kTime, kCTFmt, kCTz), "timeformat": optional(2, kInt, kCTFmt, kCTz), "timeattr": optional(1, kInt, kCAttr, kCTz),
+	"buckettime": optional(2, kTime, kCBucket, kCTFmt, kCTz), "duration": fixed(kDur), "durationformat": fixed(kInt),
+	"color": fixed(kCColor, kAny), "repeat": fixed(kCStr, kSize), "bar": optional(1, kInt, kCInt, kCSize, kCScaler),
 }
 
 // allFunctions is the registered table (funclib.Builtins = stdlib.StandardFunctions
@@ -133,7 +138,7 @@ func specOf(name string) fnSpec {
 	if s, ok := fnTable[name]; ok {
 		return s
 	}
-	return varargs(kAny)
+	return varargs(0, kAny)
 }
 
 // ---------------------------------------------------------------------------
